@@ -65,6 +65,10 @@ KB_U20 == [j \in 1..20 |->
   IF j <= 16 THEN Str(LMNO) \o Rep(cx, 2990) \o Str(<<ca + (j \div 4), ca + (j % 4)>>)
   ELSE IF j = 17 THEN Str(<<ca>>) ELSE IF j = 18 THEN Str(LMNO) ELSE IF j = 19 THEN Str(<<cz>>) ELSE <<>>]
 
+\* --- UBig: cells that fit a page but not two to a half: A (2001-byte key) and C fit one leaf together with 6000-byte
+\*     values, B (3001-byte key) between them fits with neither (a full leaf [A, C] + B cannot be split in two)
+KB_UBig == << Str(<<ca>>) \o Rep(cx, 2000), Str(<<cb>>) \o Rep(cx, 3000), Str(<<cc>>) \o Rep(cx, 2000) >>
+
 \* --- values: id -> length.  0, 1 and 5 bytes (tiny), 240/241 (value-length varint grows from 1 to 2 bytes),
 \*     two different 3000-byte values (in-place update), 6000 bytes
 VLen8 == <<0, 1, 5, 240, 241, 3000, 3000, 6000>>
@@ -88,6 +92,7 @@ Pre_U6 == <<
   <<Op("ins", 1, 8), Op("ins", 2, 8), Op("ins", 3, 8), Op("ins", 4, 8), Op("del", 3, 0), Op("del", 4, 0)>> >>
 NoPreload == << <<>> >>
 OpVals_U6 == [ins |-> {1, 3, 6, 8}, ifabs |-> {3}, app |-> {3, 8}, upd |-> {1, 3, 6, 8}]
+OpVals_Big == [ins |-> {1, 8}, ifabs |-> {8}, app |-> {8}, upd |-> {1, 8}]
 
 \* ------------------------------------------------------------------ BFS: every transition once
 StepsOf(script) ==
